@@ -40,3 +40,11 @@ Definition create_pinned (s : state) (m : create_msg) : option state :=
        | None => None
        end.
 
+
+(** the same history with parameter changes: the authority raises the limits (compatible), a stranger
+    tries to cut them (rejected), the authority submits an invalid set (time-based limit > limit: rejected) *)
+Definition exRaise : list aparam := [mkAP 0 1500 true 600 (45 * ns) true 4 2 1 500 50 110].
+Definition exBadCut : list aparam := [mkAP 0 10 true 10 (60 * ns) true 3 1 1 400 50 100].
+Definition exInvalid : list aparam := [mkAP 0 100 true 101 (60 * ns) true 3 1 1 400 50 100].
+Definition exOps2 : list op :=
+  firstn 7 exOps ++ [SetParams GOV exRaise; SetParams 0 exBadCut; SetParams GOV exInvalid] ++ skipn 7 exOps.
